@@ -24,6 +24,13 @@ ALLOWED_STATE = {
         'git host client registry, filled by class decorators at import '
         'time',
 }
+# module-level containers that are handed to other code, read off the pinned
+# tree (anything else handed out is reported)
+HANDED_OUT = {
+    'bert_e.server.api.FORMS':
+        'registry of form classes, passed to the template renderer of the '
+        'management page (read only, server side, no job involved)',
+}
 BERTE_ATTRS = {'status', 'tasks_done', 'task_queue', 'settings', 'client',
                'project_repo', 'git_repo', 'tmpdir'}
 
@@ -447,6 +454,38 @@ def no_cross_job_state(prog, an, rep):
                           '%s writes into module-level container %s, which '
                           'survives into the next job' % (f.qname, q),
                           detail=ALLOWED_STATE.get(q))
+    # (b') a module-level container handed to a call, stored in an
+    # attribute or returned becomes part of whatever object receives it:
+    # every job then shares that one object
+    pm_cache = {}
+    for f in prog.all_funcs():
+        if f.module.name == 'bert_e.git_host.mock' or \
+                f.module.name.startswith('bert_e.bin'):
+            continue
+        for n in walk_local(f.node, include_root=False):
+            if not (isinstance(n, ast.Name) and
+                    isinstance(n.ctx, ast.Load)):
+                continue
+            q = prog.resolve_expr(f.module, n, f)
+            if q not in containers or q in ALLOWED_STATE or \
+                    q in HANDED_OUT:
+                continue
+            if n.id in f.params or any(
+                    v is not None or True for _, v in stores_to(f, n.id)):
+                continue        # a local of the same name
+            pm_ = pm_cache.setdefault(f.qname, parent_map(f.node))
+            par = pm_.get(n)
+            escapes = (isinstance(par, ast.Call) and n in par.args) or \
+                isinstance(par, (ast.keyword, ast.Return)) or \
+                (isinstance(par, ast.Assign) and par.value is n) or \
+                (isinstance(par, ast.BoolOp)) or \
+                (isinstance(par, ast.IfExp) and n is not par.test)
+            rep.evaluated()
+            rep.check(not escapes, R, '%s hands out module-level container '
+                      '%s' % (f.qname, q), f.where(n), 'the module-level '
+                      'mutable object %s is passed on / stored / returned by '
+                      '%s: whatever a job writes into it is seen by the '
+                      'next job' % (q, f.qname))
     # (c) attributes of the long-lived BertE instance
     be = prog.cls('bert_e.bert_e.BertE')
     for f in prog.all_funcs():
